@@ -1435,6 +1435,19 @@ def g7lz(rng, **opts):
                 ext={"M": rng.randint(1, 4), "K": rng.randint(1, 5)}, env={}, tags=["g7lz", "n%d" % n])
 
 
+def colliding_rank_names(d):
+    """some declared rank name is the concatenation of two or more declared rank names of the specification (`MI` next to `M` and
+    `I`): the compiler's tensor variable names (<Tensor>_<ranks concatenated>) are then ambiguous, and it decides by NAME whether a
+    swizzle is needed"""
+    decl = (d.get("einsum") or {}).get("declaration") or {}
+    names = sorted({r for rs in decl.values() for r in rs})
+    def splits(w, depth=0):
+        if w == "":
+            return depth >= 2
+        return any(w.startswith(n) and splits(w[len(n):], depth + 1) for n in names if n)
+    return any(splits(n) for n in names)
+
+
 def g5(rng):
     """cascade of 2-4 Einsums; later Einsums read earlier results"""
     n = rng.randint(2, 4)
